@@ -6,11 +6,24 @@ import concurrent.futures
 import itertools
 from copy import deepcopy
 
-from common import c_bool, c_list, c_nat, c_str
+import time
+
+from common import CoqEvalError, c_bool, c_list, c_nat, c_str
 
 from golem.core.optimisers.graph import OptGraph, OptNode
 
 REQ = ['Graph.DescId']
+
+
+def coq_eval(ctx, group, fn, cases, k, shard, **kw):
+    """ctx.coq_cases with one retry on smaller shards: on the shared machine a coqc process is occasionally
+    killed by the OOM killer (empty output, non-zero exit), which says nothing about the cases"""
+    try:
+        return ctx.coq_cases(group, REQ, fn, cases, k, shard=shard, **kw)
+    except CoqEvalError as ex:
+        ctx.notes.append('coqc shard failed once, retried with smaller shards: %s' % str(ex)[:200])
+        time.sleep(20)
+        return ctx.coq_cases(group, REQ, fn, cases, k, shard=max(20, shard // 3), **kw)
 
 
 # ----------------------------------------------------------------------------------------
@@ -152,7 +165,7 @@ def run_tree_pool(ctx, group, trees, workers=1, canary=True):
         cases.append('(%s, %s, %s, %s)' % (tree_coq(trees[-1]), c_str(ids[-1]), c_list(map(c_nat, bad), 'nat'),
                                           c_list(map(c_nat, id_rows[-1]), 'nat')))
         ctx.canaries += 1
-    res = ctx.coq_cases(group, REQ, TREE_FN, cases, 2, shard=max(36, len(cases) // 16 + 1), preamble=tree_preamble(trees),
+    res = coq_eval(ctx, group, TREE_FN, cases, 2, shard=max(36, len(cases) // 16 + 1), preamble=tree_preamble(trees),
                         case_ty='tree * string * list nat * list nat')
     if canary:
         if res[-1] == (False, False):
@@ -471,7 +484,7 @@ def run_dags(ctx, n_triples):
         dg_coq(s1), dg_coq(s2), dg_coq(s2), c_list(map(c_nat, f12), 'nat'), c_list(map(c_nat, [0, 1, 2]), 'nat'),
         gobs_coq(o1), gobs_coq(o2), gobs_coq(o2), eqs_coq(e)))
     ctx.canaries += 1
-    res = ctx.coq_cases('dags', REQ, DAG_FN, cases, 4, shard=ctx.pick(110, 300), preamble=PRE_BS)
+    res = coq_eval(ctx, 'dags', DAG_FN, cases, 4, shard=110, preamble=PRE_BS)
     if res[-1][:2] == (False, False):
         ctx.canaries_caught += 1
     for (case, claim12, claim23, flavour, how2, how3, n, single, params_on), (ag, ho, i12, i23) in zip(meta, res[:-1]):
